@@ -12,9 +12,9 @@ mkdir -p $T/include/private/autogen $T/include/hwloc/autogen
 cp /repo/include/private/autogen/config.h $T/include/private/autogen/; cp /repo/include/hwloc/autogen/config.h $T/include/hwloc/autogen/
 cp /repo/hwloc/static-components.h $T/hwloc/ 2>/dev/null
 for P in $PROPS; do
-  VP_REPO=$T VP_WORK=/tmp/vpseed/work_$S VP_EVID=/tmp/vpseed/evid_$S timeout ${SEED_TIMEOUT:-1800} python3 /verif/vp/check.py $P --tier ${SEED_TIER:-quick} --jobs ${SEED_JOBS:-6} > /tmp/vpseed/$S.$P.log 2>&1
+  VP_REPO=$T VP_WORK=/tmp/vpseed/work_$S VP_EVID=/tmp/vpseed/evid_$S timeout ${SEED_TIMEOUT:-1800} python3 /verif/vp/check.py $P --tier ${SEED_TIER:-quick} --jobs ${SEED_JOBS:-6} ${SEED_ONLY:+--only $SEED_ONLY} > /tmp/vpseed/$S.$P.log 2>&1
   rc=$?
-  { echo "seed=$S property=$P tier=${SEED_TIER:-quick} exit=$rc"; grep -E "^VIOLATION|KNOWN-FINDING|counterexample in|NOT DECIDED|harnesses passed" /tmp/vpseed/$S.$P.log | cut -c1-400; } > /verif/seeded/$S/eval_$P.txt
+  { echo "seed=$S property=$P tier=${SEED_TIER:-quick} exit=$rc"; grep -E "^VIOLATION|KNOWN-FINDING|counterexample in|NOT DECIDED|harnesses passed" /tmp/vpseed/$S.$P.log | cut -c1-400; } > /verif/seeded/$S/eval_$P${SEED_ONLY:+.partial}.txt
   echo "SEED-EVAL $S $P exit=$rc"
 done
 git -C /repo worktree remove --force $T; rm -rf /tmp/vpseed/work_$S /tmp/vpseed/evid_$S
